@@ -3,6 +3,7 @@
 //! Code: mahf::components::recombination::functional::{multi_point_crossover,uniform_crossover,arithmetic_crossover,cycle_crossover}
 //! Code: mahf::components::recombination::{UniformCrossover,NPointCrossover,ArithmeticCrossover,CycleCrossover}::recombine (called directly), recombination (driver), SwapMutation::from_params, DEMutation::{from_params,execute}
 //! Out: solutions longer than 5 elements; the distribution of mutation noise; Normal/Uniform/BitFlip/Scramble/Inversion/Insertion/Translocation mutation *components* through a State with Vec encodings (class S, thorough tier only, best effort)
+//! Reclimit: mahf::state::(registry::)?StateRegistry::<.*>::find(_mut)?::<.*>=2
 //! Assume: helper inputs satisfy exactly the documented `requires` contracts (indices in bounds, range.start <= range.end < len, index + chunk <= len); permutation-ness of cycle-crossover parents
 use mahf::components::mutation::functional as mf;
 use mahf::components::mutation::{de::DEMutation, SwapMutation};
